@@ -6,6 +6,7 @@ pub mod c08;
 pub mod c13;
 pub mod c14;
 pub mod buschecks;
+pub mod c04;
 pub mod c05;
 pub mod c06;
 pub mod c09;
@@ -44,7 +45,7 @@ pub trait Check: Sync {
 }
 
 pub fn all() -> Vec<Box<dyn Check>> {
-    vec![Box::new(c01::C01), Box::new(c07::C07), Box::new(c08::C08), Box::new(c13::C13), Box::new(c14::C14), Box::new(buschecks::C02), Box::new(buschecks::C03), Box::new(buschecks::C04), Box::new(buschecks::C10), Box::new(c05::C05), Box::new(c09::C09), Box::new(c11::C11), Box::new(c12::C12), Box::new(c06::C06), Box::new(c15::C15), Box::new(c19::C19), Box::new(schema_checks::C17), Box::new(schema_checks::C18), Box::new(c20::C20), Box::new(c16::C16)]
+    vec![Box::new(c01::C01), Box::new(c07::C07), Box::new(c08::C08), Box::new(c13::C13), Box::new(c14::C14), Box::new(buschecks::C02), Box::new(buschecks::C03), Box::new(c04::C04), Box::new(buschecks::C10), Box::new(c05::C05), Box::new(c09::C09), Box::new(c11::C11), Box::new(c12::C12), Box::new(c06::C06), Box::new(c15::C15), Box::new(c19::C19), Box::new(schema_checks::C17), Box::new(schema_checks::C18), Box::new(c20::C20), Box::new(c16::C16)]
 }
 
 pub fn find(id: &str) -> Option<Box<dyn Check>> {
